@@ -333,7 +333,36 @@ def rule_progress_first(ctx, M):
         prims.check_indexer(ctx, M, "X.ROT")
 
 
+def rule_result_collect_stops(ctx, M):
+    """`impl FromConcurrentStream<Result<T, E>> for Result<Vec<T>, E>` must drive the stream with a consumer that can
+    answer ConsumerState::Break (in `send` or `progress`): a consumer that never does keeps draining the source and running
+    the sibling futures after an error, whatever is done with the collected results afterwards."""
+    found = 0
+    for x in M.F.bodies:
+        if not (x.def_.endswith("from_concurrent_stream::{closure#0}") and "Result<" in x.def_.split(" as ")[0]):
+            continue
+        found += 1
+        xi = M.info(x)
+        news = [s for s in xi.sites if s.callee.name == "new" and s.callee.owner in M.consumers]
+        owners = sorted({s.callee.owner for s in news})
+        can_break = False
+        for o in owners:
+            ent = M.consumers[o]
+            for fn in ("send", "progress"):
+                b = ent.get(fn)
+                if b is None:
+                    continue
+                bi = costream.effective_body(M, M.info(b))
+                if any(r[1] == "Break" for r in flow.returned_values(bi)):
+                    can_break = True
+        ctx.check(bool(owners) and can_break, "C14.RESVEC", x.def_,
+                  "collecting into a Result drives the stream with a consumer that can stop it (Break) when an item is an Err",
+                  site=x.span, sample={"consumers": owners})
+    return found
+
+
 def rule_resvec(ctx, M):
+    rule_result_collect_stops(ctx, M)
     ent = M.consumers.get("ResultVecConsumer")
     ctx.require(ent is not None and ent["progress"] is not None, "ResultVecConsumer::progress coroutine")
     b = ent["progress"]
